@@ -15,7 +15,8 @@ META = {
                    "(C13.4) check_http2_request under version == HTTP_2: CONNECT => Err(InvalidMethod), version set to HTTP_2, HeaderMap::remove for every element of "
                    "CONNECTION_HEADERS (the frozen five names) and for HOST; (C13.5) HttpConnection::send_request writes in each arm the constant version() reports for that arm "
                    "and sends on that arm's sender; (C13.6) handshake_h2 is reached exactly on protocol == Http2 or (Http1 and ALPN == h2), handshake_h1 otherwise; connect_to "
-                   "derives the protocol from the request version.",
+                   "derives the protocol from the request version."
+                   " C13.2's port rule is a decision table (port x scheme security -> kept or omitted) evaluated abstractly; set_host_header is checked in normal form (value inserted only into a Vacant HOST entry); version tests are normalised by version_rel.",
     "trusted_base": ["rustc type checker (the builder type is the layer stack)", "tower ServiceBuilder applies Stack<Inner, Outer> outer-first", "http crate header / uri APIs"],
     "assumptions": [],
     "undecided": "the resulting header / URI values over the request grammar",
